@@ -107,6 +107,10 @@ type ReqSpec struct {
 	// w.(http.Hijacker), 2 through http.NewResponseController(w), and writes
 	// its answer to the connection itself (protocol upgrades, proxies).
 	Hijack int `json:"hijack,omitempty"`
+	// NoRaddr / NoURI: the request has an empty RemoteAddr / RequestURI (built
+	// in-process or with http.NewRequest rather than received by a server).
+	NoRaddr bool `json:"no_raddr,omitempty"`
+	NoURI   bool `json:"no_uri,omitempty"`
 	// Flushes: how many times the handler flushes (through a response
 	// controller) after writing.
 	Flushes int `json:"flushes,omitempty"`
@@ -233,6 +237,20 @@ type ctxKey struct{}
 
 func reqID(i int) string { return fmt.Sprintf("r%d", i) }
 
+func (c BatchCase) raddr(i int) string {
+	if c.Reqs[i].NoRaddr {
+		return ""
+	}
+	return "10.0.0." + strconv.Itoa(i) + ":1234"
+}
+
+func (c BatchCase) uri(i int) string {
+	if c.Reqs[i].NoURI {
+		return ""
+	}
+	return "/p/" + reqID(i) + "?q=" + reqID(i)
+}
+
 func checkBatch(c BatchCase) error {
 	vp.CurrentJSON("c20.batch", c)
 	var mu sync.Mutex
@@ -257,8 +275,8 @@ func checkBatch(c BatchCase) error {
 
 	verify := func(when string, r *http.Request, i int) {
 		id := reqID(i)
-		if r.Method != "M"+id || r.URL.Path != "/p/"+id || r.URL.RawQuery != "q="+id || r.Host != "host-"+id || r.RemoteAddr != "10.0.0."+strconv.Itoa(i)+":1234" ||
-			r.RequestURI != "/p/"+id+"?q="+id || r.Header.Get("X-Id") != id || r.Header.Get("X-Other") != "o"+id {
+		if r.Method != "M"+id || r.URL.Path != "/p/"+id || r.URL.RawQuery != "q="+id || r.Host != "host-"+id || r.RemoteAddr != c.raddr(i) ||
+			r.RequestURI != c.uri(i) || r.Header.Get("X-Id") != id || r.Header.Get("X-Other") != "o"+id {
 			fail("%s the gate, the handler invocation of request %s observes method=%q url=%q host=%q raddr=%q uri=%q X-Id=%q", when, id, r.Method, r.URL, r.Host, r.RemoteAddr, r.RequestURI, r.Header.Get("X-Id"))
 		}
 		if v, _ := r.Context().Value(ctxKey{}).(string); v != id {
@@ -341,7 +359,7 @@ func checkBatch(c BatchCase) error {
 	start := func(i int) {
 		id := reqID(i)
 		req := httptest.NewRequest("M"+id, "/p/"+id+"?q="+id, strings.NewReader("body-"+id))
-		req.Host, req.RemoteAddr = "host-"+id, "10.0.0."+strconv.Itoa(i)+":1234"
+		req.Host, req.RemoteAddr, req.RequestURI = "host-"+id, c.raddr(i), c.uri(i)
 		req.Header.Set("X-Id", id)
 		req.Header.Set("X-Idx", "i"+strconv.Itoa(i))
 		req.Header.Set("X-Other", "o"+id)
@@ -452,7 +470,7 @@ func checkBatch(c BatchCase) error {
 			return fmt.Errorf("log record %q carries host=%q", lr.msg, host)
 		}
 		id := reqID(i)
-		if lr.attrs["method"] != "M"+id || lr.attrs["raddr"] != "10.0.0."+strconv.Itoa(i)+":1234" || lr.attrs["request_uri"] != "/p/"+id+"?q="+id {
+		if lr.attrs["method"] != "M"+id || lr.attrs["raddr"] != c.raddr(i) || lr.attrs["request_uri"] != c.uri(i) {
 			return fmt.Errorf("log record %q mixes attributes of different requests: %v", lr.msg, lr.attrs)
 		}
 		switch lr.msg {
@@ -534,6 +552,8 @@ var batchProp = vp.Register(vp.Prop[BatchCase]{
 				NoBody:  rapid.IntRange(0, 4).Draw(t, "nobody") == 0,
 				Logs:    rapid.IntRange(0, 2).Draw(t, "logs"),
 				Hijack:  rapid.SampledFrom([]int{0, 0, 0, 1, 2}).Draw(t, "hijack"),
+				NoRaddr: rapid.IntRange(0, 3).Draw(t, "noraddr") == 0,
+				NoURI:   rapid.IntRange(0, 5).Draw(t, "nouri") == 0,
 				Flushes: rapid.SampledFrom([]int{0, 0, 1, 3}).Draw(t, "flushes"),
 			})
 			acts = append(acts, Act{Kind: "start", Req: i}, Act{Kind: "release", Req: i})
